@@ -11,7 +11,7 @@ From Utp Require Import Base.Prelude Wire.SeqNr Wire.SeqNr_Proofs Wire.Header Rt
   Conn.VSock_Lemmas Conn.VSock_LemmasStep Conn.VSock_LemmasReach Conn.VSock_LemmasTx
   Conn.VSock_LemmasIn Conn.VSock_LemmasTimers Conn.VSock_LemmasPipe Conn.C17_StepLemmas
   Conn.C10_Pred Conn.C05_Pred Conn.C06_Pred Conn.C0506_Pred2 Conn.C06_Pred2 Conn.C06_RecProofs
-  Conn.C06_StepLemmas Conn.C06_StepLemmas2 Conn.C10_Proofs.
+  Conn.C06_StepLemmas Conn.C06_StepLemmas2 Conn.C06_StepLemmas3 Conn.C10_Proofs.
 
 Section WithCC.
 Context {CC : Type} (cci : cc_iface CC).
@@ -377,6 +377,72 @@ Proof.
   - apply c06_no_resend_acked_t_other.
   - apply c06_no_resend_acked_t_poll.
   - eapply vsock_new_LB; eassumption.
+Qed.
+
+(* ================================================================== c06_fast_retx_ok *)
+Theorem c06_fast_retx_ok_t_poll : forall cfg (s : vsock) sc,
+  LB 0 s -> ti s -> v_emsg_limit s = None -> script_legit sc = true ->
+  c06_fast_retx_ok_t cfg (fstep_of cci s (VoPoll sc)) = true.
+Proof.
+  intros cfg s sc HL Hti Hl Hs. unfold c06_fast_retx_ok_t, c06_fast_retx_ok.
+  destruct (poll cci (VSockRec.set_sends s sc)) as [s' r] eqn:E.
+  rewrite (fstep_of_poll cci s sc s' r E). cbn [fs_event fs_result fs_pre fs_post].
+  match goal with |- (if ?c then _ else _) = true => destruct c eqn:G end; [|reflexivity].
+  destruct r; try reflexivity.
+  apply andb_true_iff in G. destruct G as [G1 G2]. apply Z.leb_le in G1.
+  cbn [fp_of_vsock f_recovery f_sack_depth f_segs f_rto_retx f_transport_pending f_snd_una] in *.
+  destruct (rv_phase (v_recovery s)) as [rp0|d0|rc0] eqn:E0; try reflexivity;
+    (destruct (rv_phase (v_recovery s')) as [rp1|d1|rc1] eqn:E1; try reflexivity).
+  all: match goal with |- (if ?c then _ else _) = true => destruct c eqn:G3 end; [|reflexivity].
+  all: repeat (apply andb_true_iff in G3; destruct G3 as [G3 ?]).
+  all: destruct (first_undelivered (map fseg_of (ss_segs (v_segs s')))) as [[i g]|] eqn:Ef; [|reflexivity].
+  all: match goal with |- (if ?c then _ else _) = true => destruct c eqn:G4 end; [|reflexivity].
+  all: apply andb_true_iff in G4; destruct G4 as [_ G4]; cbn [rc_recovery_point] in G4.
+  all: assert (HL0 : LB 0 (VSockRec.set_sends s sc)) by (eapply LB_kp; [exact HL|]; unfold kp; auto).
+  all: assert (HE : EF (VSockRec.set_sends s sc)) by (split; [exact Hs | exact Hl]).
+  all: assert (Hnr : is_recovering (v_recovery (VSockRec.set_sends s sc)) = false)
+         by (unfold is_recovering; change (v_recovery (VSockRec.set_sends s sc)) with (v_recovery s); rewrite E0; reflexivity).
+  all: pose proof (poll_fast_strict cci (Z.of_nat (length (ss_segs (v_segs s)))) _ _ HL0 Hti HE Hnr
+                     ltac:(unfold len_z; cbn; lia) E) as K.
+  all: rewrite map_length in G2; apply Z.ltb_lt in G2.
+  all: apply negb_true_iff in H0; apply Z.eqb_eq in H1.
+  all: destruct (K H0 H1 rc1 i E1 (first_undelivered_fu _ _ _ Ef) G1 G2 G4) as (p & P1 & P2 & P3).
+  all: apply existsb_exists; exists (fpacket_of p); split;
+         [apply in_map; rewrite <- in_rev; exact P1|];
+         unfold fq_is_data, fpacket_of; cbn [fq_hdr]; rewrite P2, P3; cbn [andb]; apply Z.eqb_refl.
+Qed.
+
+Theorem c06_fast_retx_ok_t_other : forall cfg (s : vsock) o,
+  (forall sc, o <> VoPoll sc) -> c06_fast_retx_ok_t cfg (fstep_of cci s o) = true.
+Proof.
+  intros cfg s o Hnp. unfold c06_fast_retx_ok_t, c06_fast_retx_ok. rewrite fstep_of_event.
+  destruct (_ && _); [|reflexivity]. destruct o; try reflexivity. exfalso. eapply Hnp. reflexivity.
+Qed.
+
+Theorem c06_fast_retx_ok_g_trace : forall cfg mk c (s0 : vsock) ops,
+  vconfig_ok c = true -> vsock_new cci mk c = Some s0 ->
+  c06_fast_retx_ok_g cfg (ftrace cci s0 ops) = true.
+Proof.
+  intros cfg mk c s0 ops Hc H0. unfold c06_fast_retx_ok_g.
+  assert (Hl : v_emsg_limit s0 = None).
+  { unfold vsock_new in H0.
+    destruct (match (if vc_incoming c then None else _) with Some r => _ | None => _ end); [|discriminate].
+    inversion H0; subst. reflexivity. }
+  rewrite <- Hl.
+  (* noemsg_scan_ok with the invariant LB 0 /\ ti *)
+  assert (Hgen : forall ops (s : vsock), LB 0 s -> ti s ->
+            noemsg_scan (c06_fast_retx_ok_t cfg) (v_emsg_limit s) (ftrace cci s ops) = true).
+  { induction ops0 as [|o rest IH]; intros s HL Ht; [reflexivity|].
+    rewrite ftrace_cons'. cbn [noemsg_scan].
+    assert (Hn : lim_next (v_emsg_limit s) (fstep_of cci s o) = v_emsg_limit (vstep_state cci s o)).
+    { unfold lim_next. rewrite fstep_of_event, vstep_limit. destruct o; reflexivity. }
+    rewrite Hn. apply andb_true_intro. split.
+    - unfold poll_noemsg. rewrite fstep_of_event.
+      destruct o; cbn [fevent_of]; try (apply c06_fast_retx_ok_t_other; discriminate).
+      destruct (script_legit script) eqn:Es; [|reflexivity].
+      destruct (v_emsg_limit s) eqn:El; [reflexivity|]. cbn [andb]. apply c06_fast_retx_ok_t_poll; assumption.
+    - destruct (poll_finished _); [reflexivity|]. apply IH; [apply (vstep_LB cci s o HL) | apply ti_vstep; exact Ht]. }
+  apply Hgen; [eapply vsock_new_LB; eassumption | eapply ti_vsock_new; exact H0].
 Qed.
 
 (* ================================================================== c06_backoff_ok *)
